@@ -42,6 +42,8 @@ DECODE_Q = R("decode_q", "decode_q.cfg", expect_ops=["decode_wire", "encode_deco
 DECODE_T = R("decode_t", "decode_t.cfg", expect_ops=["decode_wire"], timeout=3000)
 
 SIG_Q = R("sig_q", "sig_q.cfg", rounds=3, expect_ops=["add_signature", "sign", "forge_signed", "obs_verify", "elide_set"])
+SIG_Q2 = R("sig_q2", "sig_q2.cfg", rounds=2, expect_ops=["add_signature", "sign", "obs_verify", "elide_set"])
+SIG_T = R("sig_t", "sig_t.cfg", rounds=2, timeout=3000, expect_ops=["add_signature", "sign", "forge_signed", "obs_verify", "elide_set", "uncompress", "encode_decode"])
 RECIPIENT_Q = R("recipient_q", "recipient_q.cfg", rounds=4, expect_ops=["encrypt_subject_to_recipients", "encrypt_to_recipient", "seal", "unseal", "add_recipient", "share_with", "decrypt_subject_to_recipient", "decrypt_to_recipient"],
                 expect_out=["decrypt_subject_to_recipient:ok", "decrypt_subject_to_recipient:err", "unseal:ok", "unseal:err"])
 SSKR_Q = R("sskr_q", "sskr_q.cfg", expect_ops=["sskr_split_join"], expect_out=["sskr_split_join:ok", "sskr_split_join:err"])
@@ -131,8 +133,9 @@ PLAN = {
         thorough=[DECODE_Q, DECODE_T, TRACE_BYTES_T],
     ),
     "C09": dict(
-        rule="subjects (leaf, wrapped, node) x signers {s1,s2} (scheme per chain: Schnorr, ECDSA, Ed25519, SSH-Ed25519, ML-DSA44) with/without metadata x then another signature / a forged 'signed' assertion of 8 kinds / elision of any part / another assertion x has_signature_from, verify_signature_from, verify, *_returning_metadata for every key list of length 1-2 and threshold none, 1..n+1",
-        quick=[SIG_Q],
+        rule="subjects (leaf, wrapped, node) x signers {s1,s2} (scheme per chain: s1 deterministic - ECDSA, Ed25519, SSH-Ed25519; s2 randomised - Schnorr, ML-DSA44) with/without metadata x then another signature / a forged 'signed' assertion of 8 kinds / elision of any part / another assertion / a repeated signature by the same key after elision or compression of any part (sig_q2) x has_signature_from, verify_signature_from, verify, *_returning_metadata for every key list of length 1-2 and threshold none, 1..n+1",
+        quick=[SIG_Q, SIG_Q2],
+        thorough=[SIG_Q, SIG_Q2, SIG_T],
     ),
     "C10": dict(
         rule="shapes x recipient lists of length 1-2 over {r1,r2} (X25519 / ML-KEM512 / ML-KEM768 per chain, duplicates allowed) x {encrypt_subject_to_recipients, encrypt_to_recipient, seal} then add_recipient / re-sharing by an existing recipient / another assertion, then decrypt_subject_to_recipient / decrypt_to_recipient / unseal with each private key and sender",
